@@ -44,6 +44,8 @@ type scenario struct {
 	// slowImporter: the stream handler starts only when the whole catch-up is queued (wantMarkers nil markers expected)
 	slowImporter bool
 	wantMarkers  int
+	// sideN: the local node also stores the first sideN remote-only blocks, as a side branch that is not its best chain
+	sideN int
 	// flood: blocks served by the "flood" peer at heights A+1.. (well-formed, numbered in sequence, unknown ancestry)
 	flood []item
 }
@@ -76,7 +78,13 @@ func (e *env) newScenario(a, h, r int, swap bool) *scenario {
 func (e *env) refDigest(sc *scenario, j int) (string, thor.Bytes32) {
 	ref := e.open(sc.template.Clone(), false, false)
 	defer ref.close()
-	ref.importAll(sc.remote[sc.A+1 : sc.A+1+j])
+	if j > 0 {
+		for _, b := range sc.remote[sc.A+1 : sc.A+1+sc.sideN+j] {
+			if !ref.has(b.Header().ID()) { // the first sideN of them are stored already (side branch)
+				ref.importAll([]*block.Block{b})
+			}
+		}
+	}
 	return ref.kv.Digest(), ref.best().ID()
 }
 
@@ -105,6 +113,7 @@ type fakePeer struct {
 	log      *fetchLog
 	annID    thor.Bytes32 // announced in Status
 	annScore uint64
+	probes   int                                  // GetBlockIDByNumber requests seen (lying peers)
 	onFetch  func(items int)                      // called after every GetBlocksFromNumber answer
 	byID     func(id thor.Bytes32) []rlp.RawValue // GetBlockByID answer (nil: nothing)
 	onCall   func(code uint64, env pipe.Envelope)
@@ -312,6 +321,42 @@ func (p *fakePeer) run() {
 			id := thor.Bytes32{}
 			if p.sc != nil && int(n) <= p.sc.R {
 				id = p.sc.remote[n].Header().ID()
+			}
+			if strings.HasPrefix(p.f.kind, "liar:") {
+				p.probes++
+				mine := thor.Bytes32{0xee} // what the node itself holds at n (an id that matches nothing beyond its head)
+				if int(n) <= p.sc.H {
+					mine = p.sc.local[n].Header().ID()
+				}
+				switch pol := strings.TrimPrefix(p.f.kind, "liar:"); pol {
+				case "all": // "we agree everywhere"
+					id = mine
+				case "none": // "we agree nowhere", not even on genesis
+					id = thor.Bytes32{}
+				case "alt": // non-monotone: agreement at even heights only
+					id = thor.Bytes32{}
+					if n%2 == 0 {
+						id = mine
+					}
+				case "rand":
+					id = thor.Bytes32{}
+					if p.e.rng.Intn(2) == 0 {
+						id = mine
+					}
+				case "undecodable":
+					if p.probes == p.f.variant {
+						p.log.add(trace.Ev{"e": "Probe", "n": n, "ov": false, "lost": true})
+						reply([]uint{1, 2, 3}) // a list where a 32 byte string is expected
+						continue
+					}
+				case "disconnect":
+					if p.probes == p.f.variant {
+						p.log.add(trace.Ev{"e": "Probe", "n": n, "ov": false, "lost": true})
+						p.end.Close()
+						return
+					}
+				}
+				p.log.add(trace.Ev{"e": "Probe", "n": n, "ov": id == mine})
 			}
 			reply(id)
 		case proto.MsgGetBlocksFromNumber:
@@ -634,7 +679,9 @@ wait:
 			if gapSeen {
 				res.Holes = true
 			}
-			imported = append(imported, e.name(sc.remote[h].Header().ID()))
+			if h > sc.A+sc.sideN { // what the node held before (its side branch) is not an import
+				imported = append(imported, e.name(sc.remote[h].Header().ID()))
+			}
 		} else {
 			gapSeen = true
 		}
@@ -677,14 +724,38 @@ func (e *env) emitDownload(sc *scenario, peer string, f fault, batch int, flog *
 	for _, b := range sc.local {
 		locals = append(locals, e.rec(b, "ok", sc.rk))
 	}
-	evs := []trace.Ev{{"e": "BStart", "case": fmt.Sprintf("%s/%s/%s@%d/b%d", sc.label, peer, f.kind, f.height, batch),
+	for _, b := range sc.remote[sc.A+1 : sc.A+1+sc.sideN] { // the stored side branch
+		locals = append(locals, e.rec(b, "ok", sc.rk))
+	}
+	label := fmt.Sprintf("%s/%s/%s@%d/b%d", sc.label, peer, f.kind, f.height, batch)
+	start := trace.Ev{"e": "BStart", "case": label,
 		"local": locals, "best": e.name(sc.local[sc.H].Header().ID()), "anc": sc.A, "sched": sched,
-		"honest": peer == "honest", "rhead": e.rec(sc.remote[sc.R], "ok", sc.rk)}}
+		"honest": peer == "honest", "rhead": e.rec(sc.remote[sc.R], "ok", sc.rk)}
+	var probes, fetches []trace.Ev
 	flog.mu.Lock()
-	evs = append(evs, flog.evs...)
+	for _, ev := range flog.evs {
+		if ev["e"] == "Probe" {
+			probes = append(probes, ev)
+		} else {
+			fetches = append(fetches, ev)
+		}
+	}
 	flog.mu.Unlock()
-	evs = append(evs, trace.Ev{"e": "BEnd", "status": res.Status, "imported": imported, "best": best,
-		"dropped": res.Dropped, "digestOK": res.DigestOK, "err": res.Err})
+	end := trace.Ev{"e": "BEnd", "status": res.Status, "imported": imported, "best": best,
+		"dropped": res.Dropped, "digestOK": res.DigestOK, "err": res.Err}
+	if !strings.HasPrefix(f.kind, "liar:") {
+		e.emit(append(append([]trace.Ev{start}, fetches...), end)...)
+		return
+	}
+	// a peer lying about its block ids: the probes it answered, then either the failed search or the download that started
+	// from whatever the search made of the answers (anc -1: the ancestor the algorithm of Sync.tla derives from them)
+	evs := append([]trace.Ev{{"e": "LStart", "case": label, "H": sc.H, "R": sc.R}}, probes...)
+	if strings.Contains(res.Err, "find common ancestor") {
+		evs = append(evs, trace.Ev{"e": "LResult", "err": res.Err, "same": res.DigestOK && len(imported) == 0, "dropped": res.Dropped})
+	} else {
+		start["e"], start["anc"] = "BStartL", -1
+		evs = append(append(append(evs, start), fetches...), end)
+	}
 	e.emit(evs...)
 }
 
@@ -841,6 +912,43 @@ func (e *env) bigCases(deep bool) []dlResult {
 			"kind": "ok", "score": 0, "ord": 0}})
 	}
 	out = append(out, e.runDownload(fsc, "scripted", fault{"flood", fsc.A + 1, 0}, proto.MaxBlocksFromNumber, nil, 9300))
+
+	// a peer that lies about its block ids during the ancestor search (all / none / non-monotone / random answers), answers
+	// with garbage or hangs up in the middle of it; its blocks are honest
+	for i, lsc := range []*scenario{e.newScenario(2, 5, 7, false), e.newScenario(0, 3, 2, false)} {
+		k := 0
+		for _, pol := range []string{"all", "none", "alt", "rand", "rand", "undecodable", "undecodable", "disconnect", "disconnect"} {
+			k++
+			variant := 1 + (k+i)%3 // which probe is answered with garbage / dropped
+			out = append(out, e.runDownload(lsc, "scripted", fault{"liar:" + pol, 0, variant}, 2, nil, 9500+10*i+k))
+		}
+	}
+	// the local node already stores the first two blocks of the peer's branch as a side branch (not its best chain): the
+	// search is over best chains (ancestor = A), the known blocks arrive again and are ignored
+	for i, sh := range [][3]int{{3, 9, 7}, {4, 11, 9}} {
+		ssc := e.newScenario(sh[0], sh[1], sh[2], false)
+		ssc.label += "-side2"
+		ssc.sideN = 2
+		tpl := e.open(ssc.template.Clone(), false, false)
+		for _, b := range ssc.remote[ssc.A+1 : ssc.A+3] {
+			if _, class, err := tpl.node.VerifProcessBlock(b); err != nil || class != "ok" {
+				fail("side branch block refused: %s %v", class, err)
+			}
+		}
+		if tpl.best().ID() != ssc.local[ssc.H].Header().ID() {
+			fail("scenario %s: the side branch became the best chain", ssc.label)
+		}
+		ssc.template = tpl.kv
+		tpl.close()
+		rem := e.open(kvrec.New(), true, false)
+		rem.importAll(ssc.remote[1:])
+		rem.comm = comm.New(rem.repo, nil)
+		out = append(out, e.runDownload(ssc, "honest", fault{kind: "none"}, 0, rem, 9600+i))
+		rem.comm = nil
+		rem.close()
+		out = append(out, e.runDownload(ssc, "scripted", fault{kind: "none"}, 2, nil, 9610+i))
+		out = append(out, e.runDownload(ssc, "scripted", fault{"invalid", ssc.A + 4, 1}, 2, nil, 9620+i))
+	}
 
 	// forks that tie exactly on total score: the smaller id wins (Header.BetterThan); both id orders
 	for i, tsc := range e.tieScenarios(4) {
